@@ -42,6 +42,9 @@ pub struct Case {
     pub stepped: Vec<bool>,
     pub private: Vec<String>,
     pub acts: Vec<Act>,
+    /// instruction allowance per submitted source; above LIMIT the case is a long recording and the
+    /// length of the reverse log is part of what replicas at the same script point must agree on
+    pub limit: usize,
 }
 
 pub struct Clones;
@@ -246,7 +249,15 @@ impl<'a> World<'a> {
             return Ok(());
         }
         let rr = render_result(result);
-        let h = state_hash(&rep.xs);
+        let mut h = state_hash(&rep.xs);
+        if self.case.limit > LIMIT {
+            // long recording: the same sources recorded on the original and on a snapshot leave the
+            // same amount of history to step back through
+            let d = rep.xs.verif_dump();
+            h ^= (d.rlog_len.map(|x| x as u64 + 1).unwrap_or(0)).wrapping_mul(0x9e3779b97f4a7c15);
+            st.count("probe.long_recording_source_finished");
+            st.add("long_recording_log_entries", d.rlog_len.unwrap_or(0) as u64);
+        }
         st.log(&rr);
         match self.canon_done.get(&pos) {
             None => {
@@ -291,7 +302,7 @@ impl<'a> World<'a> {
         }
         let src = self.case.script[pos].clone();
         let xs = &mut self.live[r].xs;
-        xs.set_insn_limit(Some(LIMIT)).unwrap();
+        xs.set_insn_limit(Some(self.case.limit)).unwrap();
         if self.case.stepped[pos] {
             let r0 = xs.compile(&src);
             match r0 {
@@ -328,7 +339,7 @@ impl<'a> World<'a> {
                     // stepped back and forth (rnext does not give instructions back to the meter)
                     // would be cut off earlier than its sibling and look different for the harness's
                     // own reason.
-                    self.live[r].xs.set_insn_limit(Some(LIMIT)).unwrap();
+                    self.live[r].xs.set_insn_limit(Some(self.case.limit)).unwrap();
                     let _ = self.live[r].xs.run();
                     return self.finished(r, &Err(e), st);
                 }
@@ -518,6 +529,44 @@ impl Engine for Clones {
     const STUB: &'static str = "process stdout (captured); the words the property excludes (random, random-bits, read-all, write-all, exec-piped, include/require) are not generated";
 
     fn generate(rng: &mut Rng, _tier: Tier) -> Case {
+        if rng.chance(1, 30_000) {
+            // a long recording: a snapshot taken while the reverse log is live, then millions of log
+            // entries on both copies (growth paths of the log itself are shared-nothing only if the
+            // copy behaves like the original at every size)
+            let n = 500_000 + rng.below(200_000);
+            let first = match rng.below(4) {
+                0 => "1 2 3 drop drop".to_string(),
+                1 => format!("0 {} 0 do I + loop", 5 + rng.below(300)),
+                2 => "0 var zzc [ 1 2 3 ] length".to_string(),
+                _ => format!("{} 0 do 1 drop loop 7", 1 + rng.below(40)),
+            };
+            let long = match rng.below(4) {
+                0 => format!("0 {} 0 do I + loop", n),
+                1 => format!("{} 0 do 1 2 swap drop drop loop", n / 2),
+                2 => format!("0 var zzd {} 0 do zzd 1 + ! zzd loop zzd", n / 2),
+                _ => format!(": zzg local a a 1 + ; 0 {} 0 do zzg loop", n / 3),
+            };
+            let mut acts = vec![Act::Submit(0)];
+            if rng.chance(1, 3) {
+                acts.push(Act::Save(0));
+            }
+            acts.push(Act::Clone(0, rng.chance(1, 4)));
+            let who = rng.below(2);
+            acts.push(Act::Submit(who));
+            acts.push(Act::Submit(1 - who));
+            acts.push(Act::Submit(who));
+            acts.push(Act::Submit(1 - who));
+            return Case {
+                input: Vec::new(),
+                recording: true,
+                d2: false,
+                script: vec![first, long, "depth".to_string()],
+                stepped: vec![false, false, false],
+                private: Vec::new(),
+                acts,
+                limit: 8_000_000,
+            };
+        }
         let mut f = Features::swarm(rng);
         f.immediates = rng.chance(1, 4);
         f.errors = *rng.pick(&[0, 0, 10, 30]);
@@ -593,7 +642,7 @@ impl Engine for Clones {
             };
             acts.push(a);
         }
-        Case { input, recording, d2, script, stepped, private, acts }
+        Case { input, recording, d2, script, stepped, private, acts, limit: LIMIT }
     }
 
     fn execute(case: &Case, st: &mut Stats) -> Outcome {
@@ -694,7 +743,8 @@ impl Engine for Clones {
             "script" => strs(&c.script),
             "stepped" => Json::Arr(c.stepped.iter().map(|b| Json::Bool(*b)).collect()),
             "private" => strs(&c.private),
-            "acts" => Json::Arr(acts)
+            "acts" => Json::Arr(acts),
+            "limit" => c.limit
         }
     }
 
@@ -725,6 +775,7 @@ impl Engine for Clones {
             stepped,
             private: json_strs(j, "private")?,
             acts,
+            limit: j.get("limit").and_then(|x| x.int()).map(|x| x as usize).unwrap_or(LIMIT),
         })
     }
 }
